@@ -541,7 +541,8 @@ static int unit_op (int n, char **t, int *a)
       args[1] = *slot (a[3]);
       current_object = hobj (a[1]);
       command_giver = user_ob;
-      if (!input_to (&fun, 0, 2, args))
+      /* odd slot sum: get_char() - the same bookkeeping in a second copy of the code */
+      if (!(((a[2] + a[3]) & 1) ? get_char (&fun, 0, 2, args) : input_to (&fun, 0, 2, args)))
         vh_out ("harness-error input_to refused");
       current_object = save_co;
       command_giver = save_cg;
